@@ -2,6 +2,7 @@ import DfModel.Base.Sexp
 import DfModel.Base.Order
 import DfModel.Mech.AggAcc
 import DfModel.Mech.GroupAgg
+import DfModel.Mech.SortMerge
 namespace DfModel.Drv.C06
 open DfModel DfModel.Mech.AggAcc DfModel.Mech.GroupAgg
 
@@ -40,6 +41,21 @@ def colFor (f : String) (rows : List (Row Key)) : Option (List (Key × String)) 
 def keyLe (a b : Key) : Bool :=
   RowOrd.leRows (List.replicate (max a.length b.length) ⟨false, true⟩) a b
 
+/-- key columns outside the grouping set are NULL in that set's output -/
+def maskRows (nk : Nat) (st : List Nat) (rows : List (List (Option Int))) : List (List (Option Int)) :=
+  rows.map (fun r => ((List.range nk).map (fun c => if st.contains c then r.getD c none else none)) ++ r.drop nk)
+
+/-- the specification's output lines `(key, "k1,…|a1|…")` for one grouping -/
+def linesFor (nk : Nat) (fns : List String) (rows : List (List (Option Int))) : Option (List (Key × String)) :=
+  let cols : List (Option (List (Key × String))) := (List.range fns.length).map (fun j =>
+    colFor (fns.getD j "") (rows.map (fun r => (r.take nk, toNV ((r.drop (nk + j)).headD none)))))
+  match cols.mapM id with
+  | none => none
+  | some cols =>
+    let keys : List Key := match cols with | [] => (rows.map (fun r => r.take nk)).eraseDups | c :: _ => c.map (·.1)
+    some (keys.map (fun k =>
+      (k, ",".intercalate (k.map showCell) ++ String.join (cols.map (fun c => "|" ++ ((c.find? (fun e => e.1 = k)).map (·.2)).getD "?")))))
+
 /-- `(nk (f1 f2 …) ((k1 … knk v1 v2 …) …))` → `k1,k2|a1|a2;…` sorted by key -/
 def handle (op : String) (arg : Sexp) : String :=
   match op, arg with
@@ -58,6 +74,34 @@ def handle (op : String) (arg : Sexp) : String :=
           let lines := keys.map (fun k =>
             (k, ",".intercalate (k.map showCell) ++ String.join (cols.map (fun c => "|" ++ ((c.find? (fun e => e.1 = k)).map (·.2)).getD "?"))))
           ";".intercalate ((lines.mergeSort (fun x y => keyLe x.1 y.1)).map (·.2))
+    | _, _, _ => "bad-op"
+  -- GROUPING SETS / ROLLUP / CUBE = bag union of the per-set aggregations, key columns outside the set masked to NULL:
+  -- `(nk (f1 …) ((i j …) (…) …) ((k1 … knk v1 …) …))` → sorted lines `k1,…|a1|…;…` (duplicate sets give duplicate rows)
+  | "gsets", .list [nk, .list fns, .list sets, .list rows] =>
+    match nk.asNat?, fns.mapM Sexp.asAtom?, sets.mapM Sexp.natList?, rows.mapM (fun r => r.asList? >>= (·.mapM parseCell)) with
+    | some nk, some fns, some sets, some rows =>
+      if rows.any (fun r => r.length != nk + fns.length) then "bad-op"
+      else
+        match (sets.map (fun st => linesFor nk fns (maskRows nk st rows))).mapM id with
+        | none => "unsupported"
+        | some ls => ";".intercalate ((ls.flatten.map (·.2)).mergeSort (fun x y => decide (x ≤ y)))
+    | _, _, _, _ => "bad-op"
+  -- grouped TopK: `(f desc nullsFirst k ((key v) …) ((key agg) …))`: the impl's rows must be a top-k (up to ties) of the
+  -- specification's full aggregate ordered by the aggregate value — judged with the C08 top-k judge
+  | "topk", .list [.atom f, .atom d, .atom nf, k, .list rows, .list out] =>
+    match k.asNat?, rows.mapM (fun r => r.asList? >>= (·.mapM parseCell)), out.mapM (fun r => r.asList? >>= (·.mapM parseCell)) with
+    | some k, some rows, some out =>
+      if rows.any (·.length != 2) || out.any (·.length != 2) then "bad-op"
+      else
+        let acc := match f with | "min" => some min | "max" => some max | _ => none
+        match acc with
+        | none => "unsupported"
+        | some a =>
+          let full : List RowOrd.NRow := (singleAgg a (rows.map (fun r => ([r.headD none], toNV (r.getD 1 none))))).map
+            (fun e => [e.2.map BitVec.toInt, e.1.headD none])
+          let outR : List RowOrd.NRow := out.map (fun r => [r.getD 1 none, r.headD none])
+          let le := RowOrd.leRows [⟨d == "t", nf == "t"⟩]
+          (Mech.SortMerge.judgeTopK le k full outR).show
     | _, _, _ => "bad-op"
   | _, _ => "bad-op"
 
